@@ -460,7 +460,9 @@ class Sim:
             raise SimAbort()
         me = self.current
         me.ops += 1
-        if me.after_intr:
+        if me.after_intr and interruptible:
+            # the first acquiring / blocking operation after the raise (a lock release while the exception
+            # unwinds out of a `with` block does not count: the handler has not run yet)
             me.after_intr = False
             self.log("post-interrupt-op", me.tid, str(what))
         if interruptible and me.pending_interrupt is not None:
